@@ -6,6 +6,7 @@ import (
 	"fmt"
 	"go/ast"
 	"go/constant"
+	"go/types"
 	"strings"
 )
 
@@ -97,19 +98,7 @@ func checkC18(c *Ctx, r *Report) {
 			}
 		}
 		// nodes for all states
-		okNodes := false
-		ast.Inspect(f.Decl.Body, func(n ast.Node) bool {
-			if rs, ok := n.(*ast.RangeStmt); ok {
-				if fv := fieldVar(info, rs.X); fv != nil && fv.Name() == "LR0Closure" {
-					src := strings.Join(strings.Fields(printNode(c.Fset, rs.Body)), " ")
-					if strings.Contains(src, "StateGraphNode("+identObj(info, rs.Value).Name()+")") && strings.Contains(src, ".GenDotGraph(") {
-						okNodes = true
-					}
-				}
-			}
-			return true
-		})
-		r.Check(okNodes, "C18.b", "R2 COVERAGE", f.Name+"/node-per-state", c.pos(f.Decl.Pos()), "one node is created for every state of the LR(0) collection", "not every state of the collection gets a node")
+		c18NodePerState(c, r, f)
 	}
 	// labels and annotations are assembled with constant formats only: run-time text (item strings, symbol names)
 	// must travel as an argument, never as part of a format
@@ -160,9 +149,7 @@ func checkC18(c *Ctx, r *Report) {
 		fmt.Sprintf("all %d places that name a state's node use the one format %v", n, keysOfSS(formats)), fmt.Sprintf("state nodes are named with different formats or too few sites were found (%v): edges or annotations would attach to nodes that do not exist", formats))
 	// GenDotGraph names the node by its own state number; StateGraphNode uses IC.Index and every item
 	if f := c.need(r, "C18.b", "Grammar", "Grammar", "StateGraphNode"); f != nil {
-		src := strings.Join(strings.Fields(printNode(c.Fset, f.Decl.Body)), " ")
-		ok := strings.Contains(src, "StateNumber: IC.Index") && strings.Contains(src, "range IC.Items") && strings.Contains(src, "g.ItemToStr(item)")
-		r.Check(ok, "C18.b", "R2 COVERAGE", f.Name, c.pos(f.Decl.Pos()), "the node carries the state's own index and one line per item of the state", "the node is not (state index, every item of the state)")
+		c18StateGraphNode(c, r, f)
 	}
 	if f := c.need(r, "C18.b", "Graph", "GraghNode", "GenDotGraph"); f != nil {
 		info := f.Pkg.TypesInfo
@@ -170,9 +157,16 @@ func checkC18(c *Ctx, r *Report) {
 		ast.Inspect(f.Decl.Body, func(nd ast.Node) bool {
 			if call, isC := nd.(*ast.CallExpr); isC {
 				if fn := callee(info, call); fn != nil && fn.Name() == "AddNode" && len(call.Args) >= 2 {
-					if strings.Contains(exprString(call.Args[1]), "node.StateNumber") {
-						ok = true
+					var recvObj types.Object
+					if f.Decl.Recv != nil && len(f.Decl.Recv.List) == 1 && len(f.Decl.Recv.List[0].Names) == 1 {
+						recvObj = info.Defs[f.Decl.Recv.List[0].Names[0]]
 					}
+					ast.Inspect(call.Args[1], func(m ast.Node) bool {
+						if se, isS := m.(*ast.SelectorExpr); isS && fieldNamed(info, se, "StateNumber") && recvObj != nil && identObj(info, se.X) == recvObj {
+							ok = true
+						}
+						return true
+					})
 				}
 			}
 			return true
@@ -181,19 +175,14 @@ func checkC18(c *Ctx, r *Report) {
 	}
 	// ItemToStr: dot position
 	if f := c.need(r, "C18.c", "Grammar", "Grammar", "ItemToStr"); f != nil {
-		src := strings.Join(strings.Fields(printNode(c.Fset, f.Decl.Body)), " ")
-		ok := strings.Contains(src, "if index == It.Dot") && strings.Contains(src, "if len(r.RighPart) == It.Dot") && strings.Contains(src, "g.ProductoinRules[It.RuleIndex]")
-		r.Check(ok, "C18.c", "R1 PROVENANCE", f.Name, c.pos(f.Decl.Pos()), "an item is rendered from its own rule with the dot before symbol number Dot (or at the end)", "an item's text is not built from its own rule with the dot at position Dot")
+		c18ItemToStr(c, r, f)
 	}
 	// text listing
 	if f := c.need(r, "C18.c", "Grammar", "Grammar", "ShowCloure"); f != nil {
-		src := strings.Join(strings.Fields(printNode(c.Fset, f.Decl.Body)), " ")
-		ok := strings.Contains(src, "IC.Index") && strings.Contains(src, "range IC.Items") && strings.Contains(src, "r.RighPart[:it.Dot]") && strings.Contains(src, "r.RighPart[it.Dot:]") && strings.Contains(src, "range IC.GoTo") && strings.Contains(src, "g.Sym.Name, g.ItemCl")
-		r.Check(ok, "C18.c", "R2 COVERAGE", f.Name, c.pos(f.Decl.Pos()), "the listing prints the state's index, every item split at its dot, and every goto entry with its symbol and target", "the listing does not print index, all items split at the dot and all goto entries")
+		c18ShowCloure(c, r, f)
 	}
 	if f := c.need(r, "C18.c", "Grammar", "Grammar", "Show"); f != nil {
-		src := strings.Join(strings.Fields(printNode(c.Fset, f.Decl.Body)), " ")
-		r.Check(strings.Contains(src, "range g.LR0.LR0Closure") && strings.Contains(src, "g.ShowCloure(ic)"), "C18.c", "R2 COVERAGE", f.Name, c.pos(f.Decl.Pos()), "every state of the collection is listed", "not every state is listed")
+		c18Show(c, r, f)
 	}
 	// ShowLookAheadSet prints the sets the table is built from; debug dump precedes GenTable on the same object
 	if f := c.need(r, "C18.c", "LALR", "", "ComputeLALR"); f != nil {
@@ -233,9 +222,7 @@ func checkC18(c *Ctx, r *Report) {
 			"the listing is printed from the LALR1 object whose GenTable result is then drawn and emitted", "listing, table and diagram do not come from the same LALR1 object in the order listing → table → diagram")
 	}
 	if f := c.need(r, "C18.c", "LALR", "LALR1", "ShowLookAheadSet"); f != nil {
-		src := strings.Join(strings.Fields(printNode(c.Fset, f.Decl.Body)), " ")
-		ok := strings.Contains(src, "range lalr.LookAheadSet") && strings.Contains(src, "lalr.showTrans(trId)") && strings.Contains(src, "lalr.fetchSymbol(sId).Name")
-		r.Check(ok, "C18.c", "R2 COVERAGE", f.Name, c.pos(f.Decl.Pos()), "every reduce transition's lookahead set is printed with the names of its symbols", "the lookahead listing does not print every set with its symbols' names")
+		c18ShowLookAheadSet(c, r, f)
 	}
 }
 
